@@ -4,8 +4,10 @@
    every query goes through a cursor into it (Model/Zipper.v), so parent / child / sibling relations cannot
    disagree and a parentless node has no siblings by construction (locate zeroes the sibling lists of a root). *)
 From Coq Require Import List NArith Permutation.
-From XotV Require Import Model.Base Model.Zipper Model.Access Model.Store Model.Manip Spec.DocOrder
-                         Proofs.ZipperProofs Proofs.AccessProofs Proofs.StoreProofs.
+From Coq Require Import ZArith.
+From XotV Require Import Model.Base Model.Zipper Model.Access Model.Store Model.Manip Spec.DocOrder Spec.Shape
+                         Proofs.ZipperProofs Proofs.AccessProofs Proofs.StoreProofs Proofs.InvProofs Proofs.InvSteps
+                         Proofs.InvOps Proofs.InvHist.
 Import ListNotations.
 Open Scope N_scope.
 
@@ -51,3 +53,85 @@ Theorem C04_splice_conserves :
     exists v, Permutation (nodes f) ((n, v) :: nodes (fsplice n f)).
 Proof. exact fsplice_spec. Qed.
 Print Assumptions C04_splice_conserves.
+
+(* ---------------------------------------------------------------------------------------------------------------
+   THE INVARIANT ALONG HISTORIES.  Good st =
+     SlotInv st   : every arena slot is either the slot of exactly one node of the forest (stamp >= 0) or on the free
+                    list (stamp < 0), never both, never twice (so: no node is shared between two places, no cycle, every
+                    handle the arena hands out is distinct from every live one);
+     shape_store  : under every element namespace nodes, then attribute nodes, then ordinary children; attribute and
+                    namespace nodes only under elements (or parentless); documents only as roots; only documents and
+                    elements have children (Spec/Shape.v).
+   NOT in Good (hence partial, see evidence): uniqueness of attribute names / prefixes per element, and absence of
+   adjacent text nodes; those two clauses are decided by the correspondence run and its validity oracle only. *)
+
+(* every call of the mutating API — append, prepend, insert_before/after, detach, remove, replace, element_wrap/unwrap,
+   clone_node, any_append, the attribute / namespace map and node calls, the setters, text_content_mut, node creation,
+   set_text_consolidation — with ANY arguments (live or not, of any kind, refused or not) keeps the store good *)
+Theorem C04_step_keeps_store_good : forall st o, Good st -> Good (fst (mstep st o)).
+Proof. intros st o G. exact (ext_good _ _ (Ext_mstep st o G)). Qed.
+Print Assumptions C04_step_keeps_store_good.
+
+(* hence every store reachable from the empty one by any finite sequence of calls is good *)
+Theorem C04_every_reachable_store_is_good : forall ops, Good (mfinal init_state ops).
+Proof. exact reachable_good. Qed.
+Print Assumptions C04_every_reachable_store_is_good.
+
+(* what goodness says about the slot table, spelled out *)
+Theorem C04_good_slots :
+  forall st, Good st ->
+    NoDup (ids (store st) ++ free st)
+    /\ (forall i, In i (ids (store st)) -> (0 <= stamp_of st i)%Z)
+    /\ (forall i, In i (free st) -> (stamp_of st i < 0)%Z)
+    /\ shape_store (store st) = true.
+Proof. intros st [[H1 _ _ H4 H5] Hs]. auto. Qed.
+Print Assumptions C04_good_slots.
+
+(* a handle (slot, stamp) that has stopped being live is never live again, whatever is called afterwards, even when its
+   slot is reused: is_removed stays true for ever *)
+Theorem C04_removed_for_ever :
+  forall ops1 ops2 ops3 h,
+    let a := mfinal init_state ops1 in let b := mfinal a ops2 in let c := mfinal b ops3 in
+    live a h -> ~ live b h -> ~ live c h.
+Proof.
+  intros ops1 ops2 ops3 h a b c. apply (removed_for_ever a b c h).
+  - apply Ext_mfinal. apply reachable_good.
+  - apply Ext_mfinal. apply (ext_good _ _ (Ext_mfinal ops2 a (reachable_good ops1))).
+Qed.
+Print Assumptions C04_removed_for_ever.
+
+(* a handle that is live before and after any sequence of calls denotes a node of the same class (document, element,
+   other ordinary node, attribute, namespace): handles are never re-pointed at something else *)
+Theorem C04_live_handle_same_class :
+  forall ops1 ops2 h v v',
+    let a := mfinal init_state ops1 in let b := mfinal a ops2 in
+    live a h -> live b h -> val a (fst h) = Some v -> val b (fst h) = Some v' -> same_class v v'.
+Proof.
+  intros ops1 ops2 h v v' a b. apply (live_same_class a b h v v'). apply Ext_mfinal. apply reachable_good.
+Qed.
+Print Assumptions C04_live_handle_same_class.
+
+(* creation never hands out a live handle *)
+Theorem C04_new_handle_fresh :
+  forall st v st' i, Good st -> new_node st v = (st', i) -> ~ In i (ids (store st)) /\ live st' (i, stamp_of st' i).
+Proof. exact new_handle_fresh. Qed.
+Print Assumptions C04_new_handle_fresh.
+
+(* non-vacuity: a history with removals, slot reuse, wrapping and attribute calls reaches a non-trivial store (and the
+   theorem above says it is good); and the shape predicate does reject a wrong forest (text before an attribute) *)
+Example C04_example_history :
+  let ops := [ONewDoc; ONewEl 5; OAppend 0 1; ONewText [104]; OAppend 1 2; OSetAttr 1 7 [118]; ORemove 2;
+              ONewText [105]; OAppend 1 2; OWrap 2 9; ONewNs 1 2; OAppendNsNode 1 5] in
+  store (mfinal init_state ops)
+  = FCons 0 VDocument
+      (FCons 1 (VElement 5)
+         (FCons 5 (VNamespace 1 2) FNil (FCons 3 (VAttribute 7 [118]) FNil (FCons 4 (VElement 9) (FCons 2 (VText [105]) FNil FNil) FNil)))
+         FNil) FNil
+  /\ stamps (mfinal init_state ops) = [0; 0; 1; 0; 0; 0]%Z.
+Proof. vm_compute. split; reflexivity. Qed.
+
+Example C04_shape_rejects :
+  shape_store (FCons 0 (VElement 5) (FCons 1 (VText [104]) FNil (FCons 2 (VAttribute 7 []) FNil FNil)) FNil) = false
+  /\ shape_store (FCons 0 (VElement 5) (FCons 1 VDocument FNil FNil) FNil) = false
+  /\ shape_store (FCons 0 (VText []) (FCons 1 (VElement 5) FNil FNil) FNil) = false.
+Proof. vm_compute. auto. Qed.
